@@ -7,7 +7,7 @@ from . import inst_common as ic
 
 GEN_SECTIONS = ["Regexes", "Tables", "Unicode"]
 LEAVES = {'LoopGroups': [], 'ComposeLoopGroups': [], 'LoopLanes': [], 'LoopTracks': []}
-IMP = ['buildNoteEvents', 'noteFromParsedDatas', 'noteFromParsedData', 'instrumentFromChartLines']  # functions dumped as terms of the imperative embedding, run against CPython on every run
+IMP = ['buildNoteEvents', 'noteFromParsedDatas', 'noteFromParsedData', 'instrumentFromChartLines', 'instrumentParseData']  # functions dumped as terms of the imperative embedding, run against CPython on every run
 TRUSTED = [
     "Lean 4 kernel; axioms ⊆ {propext, Classical.choice, Quot.sound}",
     "hand model of the grouping loop and Note.from_parsed_datas; generated Note / NoteTrackIndex tables and kind order",
